@@ -28,7 +28,7 @@ def _chunk(args):
                "violations": [], "notes": [], "samples": [], "runs": 0, "nontrivial": 0,
                "sim_seconds": 0.0, "harness": None}
         for i in range(lo, hi):
-            seed = kernel.run_seed(world, batch_seed, i)
+            seed = kernel.run_seed(world + ":" + focus, batch_seed, i)
             try:
                 res = kernel.generated_run(cls, focus, seed)
             except Exception:  # harness bug: report, never a violation
